@@ -256,6 +256,13 @@ def run_call(ctx, ux, g, sizes, ref, call, inp):
         if mine != exact:
             ctx.mismatch("C06/driver-exact-sum-vs-python-fractions", inp, [float(x) for x in mine[:8]], model_out)
         ctx.hit("driver-sum-cross-checked")
+        # evidence only (no verdict): how much of the theorem-backed tolerance (close_of_rounded) the code uses
+        if res is not None and not bad and vals.size == len(exact):
+            for v, ex, r in zip(vals.reshape(-1), exact, rows):
+                tol = nf * Fraction(1, 2**52) * sum((abs(fa[j] * Fraction(float(r[j]))) for j in range(nf)), Fraction(0))
+                if tol > 0:
+                    ratio = float(abs(Fraction(float(v)) - ex) / tol)
+                    ctx.extra["max_observed_error_over_tolerance"] = max(ctx.extra.get("max_observed_error_over_tolerance", 0.0), ratio)
     # correspondence of outcomes (the decision table): ok vs rejected
     impl_ok = res is not None
     if not bad and via != "dataset-integrate" and (model == "ok") != impl_ok:
@@ -428,7 +435,10 @@ def run(ctx):
     ctx.assumptions = [
         "face areas are inputs of the model: they are the floats returned by an independent compute_face_areas(rule, order) call "
         "on a separately built Grid (their geometric correctness is C05)",
-        "IEEE summation error of np.einsum is bounded by the property tolerance n_face·2^-52·Σ|terms| (modelled, not verified)",
+        "float tolerance n_face·2^-52·Σ|terms|: Lean theorem close_of_rounded / spec_values_of_rounded — EVERY bracketing of EVERY permutation "
+        "of the terms evaluated in the standard model of binary64 arithmetic (relative error ≤ 2^-53 per product and per addition, FMA "
+        "included) lies inside it, for n_face ≤ 2^53; assumed, not proved: that np.einsum / np.dot obey the standard model "
+        "(no underflow/overflow, no reduced-precision accumulation)",
         "the element dimension is the last one (DESIGN 'Interpretation choices'); arrays whose last dimension has a non-grid name "
         "are not judged, only compared (model and code both reject when the length matches nothing)",
         "UxDataset.integrate is not exercised: UxDataset cannot be constructed under the installed xarray",
